@@ -305,6 +305,8 @@ def stage_corr(pid, cfg, tier, seed):
                     first.append(l)
                 res["samples"].append(first[:40])
             kept = 0
+            if not any(l.startswith("cfg ") for l in tl[:50]):
+                fails.sort(key=len)          # single-line cases: report the smallest ones
             for f in fails:
                 k = match_known(pid, f)
                 if k:
